@@ -398,6 +398,16 @@ static int bufr_load_tableB( BUFR_Tables *tables, BufrTablesSet *tbls, const cha
    int   version;
 
    bufr_reset_tableB_cache( tables );
+/*
+ * a table referenced from another BUFR_Tables (bufr_merge_tables) is not ours to change: take a copy
+ */
+   if ((tbls->tableB != NULL)&&(tbls->tableBtype == TYPE_REFERENCED))
+      {
+      EntryTableBArray ref = tbls->tableB;
+
+      tbls->tableB = (EntryTableBArray)arr_create( arr_count(ref), sizeof(EntryTableB *), 100 );
+      bufr_merge_tableB( tbls->tableB, ref );
+      }
    tbls->tableBtype = TYPE_ALLOCATED;
 
    data_cat_desc[0] = '\0';
@@ -503,6 +513,16 @@ static int bufr_load_tableD( BUFR_Tables *tbls, BufrTablesSet *tbl, const char *
    {
    int  rtrn;
 
+/*
+ * a table referenced from another BUFR_Tables (bufr_merge_tables) is not ours to change: take a copy
+ */
+   if ((tbl->tableD != NULL)&&(tbl->tableDtype == TYPE_REFERENCED))
+      {
+      EntryTableDArray ref = tbl->tableD;
+
+      tbl->tableD = (EntryTableDArray)arr_create( arr_count(ref), sizeof(EntryTableD *), 100 );
+      bufr_merge_tableD( tbl->tableD, ref );
+      }
    tbl->tableDtype = TYPE_ALLOCATED;
 
    if (tbl->tableD == NULL)
@@ -2573,6 +2593,16 @@ int bufr_load_csv_tableB( BUFR_Tables *tables, const char *filename )
 
    tbls = &(tables->master);
    bufr_reset_tableB_cache( tables );
+/*
+ * a table referenced from another BUFR_Tables (bufr_merge_tables) is not ours to change: take a copy
+ */
+   if ((tbls->tableB != NULL)&&(tbls->tableBtype == TYPE_REFERENCED))
+      {
+      EntryTableBArray ref = tbls->tableB;
+
+      tbls->tableB = (EntryTableBArray)arr_create( arr_count(ref), sizeof(EntryTableB *), 100 );
+      bufr_merge_tableB( tbls->tableB, ref );
+      }
    tbls->tableBtype = TYPE_ALLOCATED;
 
    if (tbls->tableB == NULL)
@@ -2631,6 +2661,16 @@ int bufr_load_csv_tableD( BUFR_Tables *tables, const char *filename )
    BufrTablesSet  *tbls;
 
    tbls = &(tables->master);
+/*
+ * a table referenced from another BUFR_Tables (bufr_merge_tables) is not ours to change: take a copy
+ */
+   if ((tbls->tableD != NULL)&&(tbls->tableDtype == TYPE_REFERENCED))
+      {
+      EntryTableDArray ref = tbls->tableD;
+
+      tbls->tableD = (EntryTableDArray)arr_create( arr_count(ref), sizeof(EntryTableD *), 100 );
+      bufr_merge_tableD( tbls->tableD, ref );
+      }
    tbls->tableDtype = TYPE_ALLOCATED;
 
    if (tbls->tableD == NULL)
